@@ -260,6 +260,44 @@ def check_proofs(pid, tier="quick"):
 
 # ---------------------------------------------------------------- correspondence
 
+def run_model(runner_exe, cases, out, timeout):
+    """evaluate the extracted model on every case line; large case files are dealt round-robin over up to 16 runner
+    processes (the runner handles one line at a time, lines are independent)"""
+    lines = open(cases, "rb").read().splitlines(keepends=True)
+    nsh = max(1, min(16, len(lines)))
+    if nsh == 1:
+        with open(cases, "rb") as fin:
+            return sh([runner_exe], stdin=fin, timeout=timeout, big_stack=True)
+    procs = []
+    for k in range(nsh):
+        sp = os.path.join(out, "cases.%d.tsv" % k)
+        with open(sp, "wb") as f:
+            f.writelines(lines[k::nsh])
+        fin = open(sp, "rb")
+        fo = open(os.path.join(out, "model.%d.tsv" % k), "wb")
+        procs.append((subprocess.Popen([runner_exe], stdin=fin, stdout=fo, stderr=subprocess.STDOUT, preexec_fn=_big_stack), fin, fo, sp))
+    deadline = time.time() + timeout
+    rc, outs = 0, []
+    for k, (pr, fin, fo, sp) in enumerate(procs):
+        try:
+            r = pr.wait(timeout=max(1, deadline - time.time()))
+        except subprocess.TimeoutExpired:
+            pr.kill()
+            pr.wait()
+            r = 124
+        fin.close()
+        fo.close()
+        mp = os.path.join(out, "model.%d.tsv" % k)
+        txt = open(mp, "rb").read().decode("utf-8", "replace")
+        if r != 0:
+            rc = r
+            txt += "\n[shard %d: exit %d]" % (k, r)
+        outs.append(txt)
+        os.remove(sp)
+        os.remove(mp)
+    return rc, "".join(t if t.endswith("\n") or not t else t + "\n" for t in outs)
+
+
 def run_job(pid, job, tier, seed, hb, runner_exe, tag=""):
     """one harness job: generate + run implementation, run the model, diff"""
     name = job["cmd"]
@@ -290,8 +328,7 @@ def run_job(pid, job, tier, seed, hb, runner_exe, tag=""):
     cases = os.path.join(out, "cases.tsv")
     mism = []
     if os.path.getsize(cases) > 0:
-        with open(cases, "rb") as fin:
-            rc2, mo = sh([runner_exe], stdin=fin, timeout=job.get("timeout", 3000), big_stack=True)
+        rc2, mo = run_model(runner_exe, cases, out, job.get("timeout", 3000))
         with open(os.path.join(out, "model.tsv"), "w") as f:
             f.write(mo)
         if rc2 != 0:
